@@ -228,6 +228,38 @@ func TestC15(t *testing.T) {
 						r.Code, r.Codespace, fc.declared, payerBal, exp, diff, fc.desc)
 				}
 			}
+			// "once" across blocks: a block holds a transaction the ante handler rejects (fee below the required fee) followed by
+			// a well-formed send that pays its fee; when the bytes of that send come again in a later block they must be rejected
+			// without moving anything (the fee was paid when the transaction was first delivered)
+			if rapid.Bool().Draw(rt, "mixedBlockThenResubmission") {
+				c.Label("mixed-block-then-resubmission")
+				funded := w.AllFunded()
+				a := funded[rapid.IntRange(0, len(funded)-1).Draw(rt, "mixedBad")]
+				b := w.Spec.DAOOwner
+				req := fm.required("send")
+				fee := func(v int64) sdk.Coins { return sdk.NewCoins(sdk.NewCoin(sdk.DefaultStakeDenom, sdk.NewInt(v))) }
+				bad := chain.SignTxOpts(chain.TxOpts{ChainID: w.Spec.ChainID, Msg: &nodesTypes.MsgSend{FromAddress: chain.Addr(a), ToAddress: chain.Addr(b), Amount: sdk.NewInt(1)},
+					Fee: fee(1), Entropy: w.NextEntropy(), Signer: a, IncludePubKey: true})
+				good := chain.SignTxOpts(chain.TxOpts{ChainID: w.Spec.ChainID, Msg: &nodesTypes.MsgSend{FromAddress: chain.Addr(b), ToAddress: chain.Addr(a), Amount: sdk.NewInt(1)},
+					Fee: fee(req), Entropy: w.NextEntropy(), Signer: b, IncludePubKey: true})
+				res := n.RunBlock(chain.Block{DT: time.Second, Proposer: chain.Addr(w.Nodes[0]), Txs: [][]byte{bad, good}})
+				c.Opf("mixed block: [send with fee 1 by %s -> %d/%s, send with fee %d by dao -> %d/%s]", w.KeyName(a), res.Txs[0].Code, res.Txs[0].Codespace, req, res.Txs[1].Code, res.Txs[1].Codespace)
+				gap := rapid.IntRange(0, 2).Draw(rt, "blocksBeforeResubmission")
+				for i := 0; i < gap; i++ {
+					n.RunBlock(chain.Block{DT: time.Second, Proposer: chain.Addr(w.Nodes[0])})
+				}
+				n.BeginBlock(chain.Block{DT: time.Second, Proposer: chain.Addr(w.Nodes[0])})
+				mid := n.Accounts()
+				r2 := n.DeliverTx(good)
+				after := n.Accounts()
+				n.Commit(n.EndBlock())
+				if res.Txs[1].Code == 0 {
+					if d := diffBalances(mid, after); len(d) != 0 || r2.Code == 0 {
+						c.Violation("C15/resubmission-in-later-block/moved-funds-again", "a send that paid its fee in block %d (which also held an ante-rejected transaction before it) was delivered again %d block(s) later: result %d/%s, balances moved %v",
+							res.Height, gap+1, r2.Code, r2.Codespace, d)
+					}
+				}
+			}
 		})
 }
 
